@@ -13,6 +13,7 @@ _T_TR = "source-to-Lean TRANSLATION (Python ast -> Lean, regenerated every run) 
 TECHNIQUE = {
     "C05": _T_BASE + _T_TR.format(what="the lookup classes (serialize/lookup.py, parse/lookup.py), split_iri, TermEncoder.encode_iri_indices and the reader's Decoder.ingest_*_entry / decode_iri / decode_literal") + _T_DIFF,
     "C16": _T_BASE + _T_TR.format(what="the reader's term level Decoder.ingest_*_entry / decode_iri / decode_literal, the statement level decode_statement / decode_triple / decode_quad (a missing repeated term) and the LookupDecoder they drive (which ids are refused, with which exception)") + _T_DIFF,
+    "C14": _T_BASE + _T_TR.format(what="the writer's side of a namespace declaration: Stream.namespace_declaration, encode_namespace_declaration, TermEncoder.encode_iri / encode_iri_indices and the row bracket") + _T_DIFF,
     "C04": _T_BASE + _T_TR.format(what="the reader's term level Decoder.ingest_*_entry / decode_iri / decode_literal, the statement level decode_statement / decode_triple / decode_quad (repeated terms) and the LookupDecoder they drive (which references resolve, which raise)") + _T_DIFF,
     "C01": _T_BASE + _T_TR.format(what="the term and statement levels of both sides: encode_spo / encode_triple / encode_quad, TermEncoder.encode_iri_indices / encode_literal, Decoder.decode_statement / decode_triple / decode_quad / ingest_*_entry / decode_iri / decode_literal, with the lookup classes") + _T_DIFF,
     "C18": _T_BASE + _T_TR.format(what="the lookup classes (Lookup.insert / make_last_to_evict / encode_entry_index: the pinning logic) and the row bracket TermEncoder.start_row / end_row, and the statement functions encode_triple / encode_quad that apply it") + _T_DIFF,
